@@ -73,6 +73,46 @@ Theorem C11_shallow_reorg_retracts_with_updates : forall st fs fp,
   step (run st (map fop_full fs)) (BD fp) = step (run st (map fop_empty fs)) (BD fp).
 Proof. exact shallow_reorg_retracts_with_updates. Qed.
 
+(** The boundary of a disconnection. [blocks_disconnected] names the fork point, the last block KEPT:
+    exactly the awaiting entries at or below its height survive, everything concluded stays. *)
+Theorem C11_disconnect_boundary : forall st f,
+  (forall e, In e (awaiting (step st (BD f))) <-> In e (awaiting st) /\ e_height e <= b_height f) /\
+  done_txids (step st (BD f)) = done_txids st /\ emitted (step st (BD f)) = emitted st /\
+  best_h (step st (BD f)) = b_height f.
+Proof. exact disconnect_boundary. Qed.
+
+(** The same boundary for the confirmed, not yet locked alternative funding (splice), which the monitor
+    keeps next to the list and retracts by a comparison of its own. *)
+Theorem C11_disconnect_boundary_alt : forall pending x f t h,
+  alt x = Some (t, h) ->
+  (h <= b_height f -> alt (xstep pending x (BD f)) = Some (t, h)) /\
+  (b_height f < h -> alt (xstep pending x (BD f)) = None).
+Proof. exact disconnect_boundary_alt. Qed.
+
+(** A fork on top of [f], whatever it confirms (a splice included), then the disconnection back to [f]:
+    the alternative funding is what it was, if it was recorded at or below [f] or not at all. *)
+Theorem C11_fork_leaves_alternative_funding : forall pending x fork f,
+  (match alt x with Some (_, h) => h <= b_height f | None => True end) ->
+  Forall (fun b => b_height f < b_height b) fork ->
+  alt (xstep pending (xrun pending x (map BC fork)) (BD f)) = alt x.
+Proof. exact fork_leaves_alt. Qed.
+
+(** Restart as an operation: the view is invariant under it, wherever it happens. *)
+Theorem C11_reload_invariant : forall st a b,
+  step st RL = st /\ run st (a ++ RL :: b) = run st (a ++ b) /\
+  forall pending x, xrun pending x (a ++ RL :: b) = xrun pending x (a ++ b).
+Proof. exact reload_all. Qed.
+
+(** The block filter keeps a child of a transaction kept earlier in the block through ANY input ... *)
+Theorem C11_block_filter_any_input : forall w m t r i,
+  In i (f_ins t) -> In (fst i) m -> filter_block w m (t :: r) = t :: filter_block w (f_id t :: m) r.
+Proof. exact filter_child_any_input. Qed.
+
+(** ... so whole-block delivery looks at every transaction that per-transaction delivery looks at. *)
+Theorem C11_whole_block_finds_what_per_tx_finds : forall w txs t,
+  In t (per_tx w txs) -> In t (filter_block w [] txs).
+Proof. exact whole_block_finds_what_per_tx_finds. Qed.
+
 (** Non-vacuity: a commitment (CSV 144 on its delayed output) at height 101, an HTLC claim at 103, then
     empty blocks; delivered as whole blocks, and transactions-first with the best block updated only
     every third block plus a duplicate. *)
@@ -117,3 +157,32 @@ Example C11_late_update_example :
     = [(11, 1, 101, 106); (11, 9, 101, 106)].
 Proof. vm_compute. repeat split. Qed.
 
+(** a commitment (id 1, spending watched 9:0) and, in the same block, a batched claim of its output 2
+    whose parent-spending input is the LAST of three: kept as a whole block and per transaction alike *)
+Example C11_filter_example :
+  let parent := mkF 1 [(9, 0)] [2] in
+  let child := mkF 2 [(66, 3); (65, 3); (1, 2)] [] in
+  let other := mkF 3 [(77, 0)] [] in
+  filter_block [(9, 0)] [] [parent; other; child] = [parent; child] /\
+  per_tx [(9, 0)] [parent; other; child] = [parent; child] /\
+  filter_positions [(9, 0)] [] 0 [parent; other; child] = [0; 2].
+Proof. vm_compute. repeat split. Qed.
+
+(** the boundary, concretely: a splice (id 50, pending) confirmed at 101, two more blocks, then a
+    disconnection back to 101 (it stays) and one back to 100 (it goes) *)
+Example C11_boundary_example :
+  let x0 := mkX (fresh 100 1100) None in
+  let x := xrun [50] x0 (map BC [mkBlk 1101 101 [mkTx 50 []]; mkBlk 1102 102 []; mkBlk 1103 103 []]) in
+  alt x = Some (50, 101) /\
+  alt (xstep [50] x (BD (mkBlk 1101 101 []))) = Some (50, 101) /\
+  alt (xstep [50] x (BD (mkBlk 1100 100 []))) = None /\
+  alt (xstep [50] x (TU 50)) = None.
+Proof. vm_compute. repeat split. Qed.
+
+(** the behaviour recorded as finding C11-F2, in the model: nothing lists the splice for a [Confirm]
+    client once the channel is closed, and the reorg branch of [best_block_updated] does not forget it *)
+Example C11_F2_example :
+  let x0 := mkX (fresh 100 1100) None in
+  let x := xrun [50] x0 [BC (mkBlk 1101 101 [mkTx 50 []]); BB (mkBlk 1100 100 [])] in
+  best_h (core x) = 100 /\ alt x = Some (50, 101).
+Proof. vm_compute. repeat split. Qed.
